@@ -1,0 +1,256 @@
+//go:build verif
+// +build verif
+
+// A white-box environment for the verification harness (build tag "verif", add-only):
+// the real redisProc.handleRequest / handlers / upstream routing / client.handleResp /
+// filter chain, with backend connections replaced by in-process fakes that record what would
+// be written to each backend and answer through a callback.
+
+package redis
+
+import (
+	"fmt"
+	"sync"
+	"time"
+
+	"github.com/samaritan-proxy/samaritan/host"
+	"github.com/samaritan-proxy/samaritan/pb/config/protocol"
+	predis "github.com/samaritan-proxy/samaritan/pb/config/protocol/redis"
+	"github.com/samaritan-proxy/samaritan/pb/config/service"
+	"github.com/samaritan-proxy/samaritan/proc"
+	"github.com/samaritan-proxy/samaritan/proc/internal/log"
+	"github.com/samaritan-proxy/samaritan/stats"
+	"github.com/samaritan-proxy/samaritan/utils"
+)
+
+// VerifSent is one request as it would be encoded to a backend.
+type VerifSent struct {
+	Addr string
+	Body *RespValue
+}
+
+// VerifCompression mirrors the compression options.
+type VerifCompression struct {
+	Enable    bool
+	Threshold uint32
+}
+
+// VerifEnv is a redis processor whose backends are fakes.
+type VerifEnv struct {
+	p      *redisProc
+	mu     sync.Mutex
+	sent   []VerifSent
+	panics []string
+	answer func(addr string, body *RespValue) *RespValue
+	fakes  map[string]*client
+	scope  *stats.Scope
+	comp   *predis.Compression
+}
+
+var verifEnvSeq int
+
+func verifCopy(v *RespValue) *RespValue {
+	if v == nil {
+		return nil
+	}
+	c := &RespValue{Type: v.Type, Int: v.Int}
+	if v.Text != nil {
+		c.Text = append([]byte{}, v.Text...)
+	}
+	if v.Array != nil {
+		c.Array = make([]RespValue, len(v.Array))
+		for i := range v.Array {
+			c.Array[i] = *verifCopy(&v.Array[i])
+		}
+	}
+	return c
+}
+
+// VerifNewEnv builds the environment. seeds are the service's hosts; strategy is the
+// pb ReadStrategy value; comp may be nil (no compression section at all).
+func VerifNewEnv(seeds []string, strategy int32, comp *VerifCompression) *VerifEnv {
+	verifEnvSeq++
+	opt := &protocol.RedisOption{ReadStrategy: predis.ReadStrategy(strategy)}
+	e := &VerifEnv{fakes: map[string]*client{}}
+	if comp != nil {
+		e.comp = &predis.Compression{Enable: comp.Enable, Threshold: comp.Threshold, Algorithm: predis.Compression_SNAPPY}
+		opt.Compression = e.comp
+	}
+	raw := &service.Config{
+		ConnectTimeout:  utils.DurationPtr(200 * time.Millisecond),
+		Protocol:        protocol.Redis,
+		ProtocolOptions: &service.Config_RedisOption{RedisOption: opt},
+	}
+	e.scope = stats.CreateScope(fmt.Sprintf("verif%d", verifEnvSeq))
+	p := &redisProc{
+		name:     "verif",
+		cfg:      newConfig(raw),
+		stats:    proc.NewStats(e.scope),
+		logger:   log.New("[verif]"),
+		cmdHdlrs: make(map[string]*commandHandler),
+	}
+	var hosts []*host.Host
+	for _, s := range seeds {
+		hosts = append(hosts, host.New(s))
+	}
+	p.u = newUpstream(p.cfg, hosts, p.logger, p.stats.Upstream)
+	p.initCommandHandlers()
+	e.p = p
+	for _, s := range seeds {
+		e.AddBackend(s)
+	}
+	return e
+}
+
+// SetCompression changes the enable flag / threshold of the compression section in place.
+func (e *VerifEnv) SetCompression(enable bool, threshold uint32) {
+	if e.comp != nil {
+		e.comp.Enable = enable
+		e.comp.Threshold = threshold
+	}
+}
+
+// SetAnswer installs the backend behaviour. A nil reply means the backend stays silent.
+func (e *VerifEnv) SetAnswer(f func(addr string, body *RespValue) *RespValue) {
+	e.mu.Lock()
+	e.answer = f
+	e.mu.Unlock()
+}
+
+func (e *VerifEnv) notePanic(where string, r interface{}) {
+	e.mu.Lock()
+	e.panics = append(e.panics, fmt.Sprintf("%s: %v", where, r))
+	e.mu.Unlock()
+}
+
+// AddBackend registers a fake backend connection for addr in the upstream's client table.
+// The fake runs the real filter chain on every request (as loopWrite does), records the
+// request body as it would be encoded, asks the answer callback and hands the reply to the
+// real client.handleResp (as loopRead does).
+func (e *VerifEnv) AddBackend(addr string) {
+	e.mu.Lock()
+	if _, ok := e.fakes[addr]; ok {
+		e.mu.Unlock()
+		return
+	}
+	u := e.p.u
+	c := &client{
+		cfg:            e.p.cfg,
+		logger:         e.p.logger,
+		pendingReqs:    make(chan *simpleRequest, 1024),
+		processingReqs: make(chan *simpleRequest, 1024),
+		quit:           make(chan struct{}),
+		done:           make(chan struct{}),
+		keyCounter:     u.hkc.AllocCounter(addr),
+		onRedirection:  u.handleRedirection,
+		onClusterDown:  u.handleClusterDown,
+	}
+	c.initFilters()
+	e.fakes[addr] = c
+	e.mu.Unlock()
+	u.clientsMu.Lock()
+	u.addClientLocked(addr, c)
+	u.clientsMu.Unlock()
+	go func() {
+		defer close(c.done)
+		for {
+			select {
+			case <-c.quit:
+				return
+			case req := <-c.pendingReqs:
+				func() {
+					defer func() {
+						if r := recover(); r != nil {
+							e.notePanic("backend "+addr, r)
+						}
+					}()
+					if c.filter.Do(req) == Stop {
+						return
+					}
+					body := verifCopy(req.Body())
+					e.mu.Lock()
+					e.sent = append(e.sent, VerifSent{Addr: addr, Body: body})
+					f := e.answer
+					e.mu.Unlock()
+					if f == nil {
+						return
+					}
+					v := f(addr, body)
+					if v == nil {
+						return
+					}
+					c.handleResp(req, v)
+				}()
+			}
+		}
+	}()
+}
+
+// LoadSlots runs the real doSlotsRefresh (CLUSTER NODES through a random seed host).
+func (e *VerifEnv) LoadSlots() (err error) {
+	defer func() {
+		if r := recover(); r != nil {
+			e.notePanic("doSlotsRefresh", r)
+			err = fmt.Errorf("panic: %v", r)
+		}
+	}()
+	return e.p.u.doSlotsRefresh()
+}
+
+// SlotOwner returns the address the routing table holds for a slot ("" when unassigned).
+func (e *VerifEnv) SlotOwner(slot int) string {
+	if inst := e.p.u.slots[slot]; inst != nil {
+		return inst.Addr
+	}
+	return ""
+}
+
+// Do runs handleRequest on one request and waits for its reply.
+func (e *VerifEnv) Do(v *RespValue, timeout time.Duration) (reply *RespValue, timedOut bool) {
+	req := newRawRequest(v)
+	func() {
+		defer func() {
+			if r := recover(); r != nil {
+				e.notePanic("handleRequest", r)
+			}
+		}()
+		e.p.handleRequest(req)
+	}()
+	select {
+	case <-req.done:
+		return verifCopy(req.Response()), false
+	case <-time.After(timeout):
+		return nil, true
+	}
+}
+
+// Sent returns and clears the log of requests that reached backends.
+func (e *VerifEnv) Sent() []VerifSent {
+	e.mu.Lock()
+	defer e.mu.Unlock()
+	s := e.sent
+	e.sent = nil
+	return s
+}
+
+// Panics returns and clears the recorded panics.
+func (e *VerifEnv) Panics() []string {
+	e.mu.Lock()
+	defer e.mu.Unlock()
+	s := e.panics
+	e.panics = nil
+	return s
+}
+
+// Counter reads one of the environment's counters by its suffix (e.g. "upstream.rq_total").
+func (e *VerifEnv) Scope() *stats.Scope { return e.scope }
+
+// Close stops the fakes.
+func (e *VerifEnv) Close() {
+	e.mu.Lock()
+	for _, c := range e.fakes {
+		c.quitOnce.Do(func() { close(c.quit) })
+	}
+	e.mu.Unlock()
+	stats.DeleteScope(e.scope)
+}
